@@ -106,6 +106,20 @@ theorem generated_call_prim_minimal (norm : List Rat → Rat) (pts : List (List 
       (by intro a b ha hb; rw [dist_disOf norm _ a b ha hb, dist_disOf norm _ b a hb ha]; exact hsym _ _)
       (by intro a b ha hb; rw [dist_disOf norm _ a b ha hb]; exact hnn _) E hE⟩
 
+/-- **the tree the generated `__call__` returns is itself a spanning edge list of exactly that length** (with `generated_call_prim_minimal`: its
+length EQUALS the minimum) -/
+theorem generated_call_prim_attains (norm : List Rat → Rat) (pts : List (List Rat)) (soma : Option (List Rat))
+    (hp : Rows3 pts) (hs : ∀ s, soma = some s → s.length = 3) (hn : 0 < (allPts soma pts).length)
+    (bf : Rat) (k : Int) (ex : Bool) (tg ts : Int) (hk : k = -1 ∨ 1 ≤ k) :
+    ∃ s, mst_call (K := Rat) norm pts soma bf k ex tg ts =
+        some (tableWith (allPts soma pts) tg ts s.pid (disOf norm (allPts soma pts))) ∧
+      Spans (allPts soma pts).length (edgesOf (allPts soma pts).length s) ∧
+      wL (disOf norm (allPts soma pts)) (edgesOf (allPts soma pts).length s) =
+        treeLength (disOf norm (allPts soma pts)) (allPts soma pts).length s ∧
+      (edgesOf (allPts soma pts).length s).length = (allPts soma pts).length - 1 :=
+  ⟨_, generated_call_eq_model norm pts soma hp hs hn bf k ex tg ts,
+    prim_attains (disOf norm (allPts soma pts)) bf _ hn (limitOf k) ex (limitOf_pos k hk)⟩
+
 /-- **the generated `__call__` raises on an empty cloud without soma** (as the source does: `conn[0] = True` on an empty array) -/
 theorem generated_call_raises_empty (norm : List Rat → Rat) (bf : Rat) (k : Int) (ex : Bool) (tg ts : Int) :
     mst_call (K := Rat) norm [] none bf k ex tg ts = none := by
